@@ -165,36 +165,36 @@ theorem affectedB_iff (strict : Bool) {cfg : Config} {p : Path} {T : Target} (hT
 /-! ## Target paths written with a trailing separator -/
 
 /-- **C01 (per change, exact; trailing separators).** `c01_change_exact` for configurations whose
-target paths name pairwise different normal directories with or without one trailing separator, and
-for every changed path that is not itself the directory of such a target (a change is a file). -/
-theorem c01_change_exact_dir {cfg : Config} (h : WFAD cfg) (p t : Path)
-    (hp : ∀ T ∈ cfg, T.path.getLast? = some sep → p ≠ dirOf T.path) :
+target paths name pairwise different normal directories and whose `uses` / `ignores` entries name
+normal paths, each written with or without one trailing separator, and for every changed path that
+is not itself the directory such an entry names (a change is a file). -/
+theorem c01_change_exact_dir {cfg : Config} (h : WFAD cfg) (p t : Path) (hp : ChangeOk cfg p) :
     t ∈ (analyzeChange cfg p).targets ↔ ∃ T, T.path = t ∧ AffectedD true cfg p T := by
   rw [mem_analyzeChange_targets]
   constructor
   · rintro ⟨hd | hv, hni⟩
     · obtain ⟨T, hT, rfl, hh⟩ := mem_searchTargets.mp hd
-      refine ⟨T, rfl, hT, fun hi => hni ((ign_iff_dir h hT p).mpr hi), Or.inl ?_⟩
-      exact (hit_dir (h.normalT T hT) (hp T hT)).mp hh
+      refine ⟨T, rfl, hT, fun hi => hni ((ign_iff_dir h hT hp).mpr hi), Or.inl ?_⟩
+      exact (hit_dir (h.normalT T hT) (hp.target T hT)).mp hh
     · obtain ⟨N, hN, m, hm, hh, hmi, hNi, T, hT, rfl, hh2⟩ := mem_viaUses.mp hv
-      refine ⟨T, rfl, hT, fun hi => hni ((ign_iff_dir h hT p).mpr hi), Or.inr ⟨N, hN, ?_, ?_, m, hm, ?_, ?_⟩⟩
+      refine ⟨T, rfl, hT, fun hi => hni ((ign_iff_dir h hT hp).mpr hi), Or.inr ⟨N, hN, ?_, ?_, m, hm, ?_, ?_⟩⟩
       · exact (hit_targets h hT hN).mp hh2
-      · exact fun hi => hNi ((ign_iff_dir h hN p).mpr hi)
-      · exact (hit_iff (h.normalU N hN m hm) p).mp hh
-      · exact fun _ => (useCounts_iff_dir h p m).mp hmi
+      · exact fun hi => hNi ((ign_iff_dir h hN hp).mpr hi)
+      · exact (hit_dir (h.normalU N hN m hm) (hp.uses N hN m hm)).mp hh
+      · exact fun _ => (useCounts_iff_dir h hp m).mp hmi
   · rintro ⟨T, rfl, hT, hni, hd | ⟨N, hN, hw, hNi, m, hm, hwm, huc⟩⟩
-    · refine ⟨Or.inl (mem_searchTargets.mpr ⟨T, hT, rfl, (hit_dir (h.normalT T hT) (hp T hT)).mpr hd⟩), ?_⟩
-      exact fun hi => hni ((ign_iff_dir h hT p).mp hi)
+    · refine ⟨Or.inl (mem_searchTargets.mpr ⟨T, hT, rfl, (hit_dir (h.normalT T hT) (hp.target T hT)).mpr hd⟩), ?_⟩
+      exact fun hi => hni ((ign_iff_dir h hT hp).mp hi)
     · refine ⟨Or.inr (mem_viaUses.mpr ⟨N, hN, m, hm, ?_, ?_, ?_, T, hT, rfl, ?_⟩), ?_⟩
-      · exact (hit_iff (h.normalU N hN m hm) p).mpr hwm
-      · exact (useCounts_iff_dir h p m).mpr (huc rfl)
-      · exact fun hi => hNi ((ign_iff_dir h hN p).mp hi)
+      · exact (hit_dir (h.normalU N hN m hm) (hp.uses N hN m hm)).mpr hwm
+      · exact (useCounts_iff_dir h hp m).mpr (huc rfl)
+      · exact fun hi => hNi ((ign_iff_dir h hN hp).mp hi)
       · exact (hit_targets h hT hN).mpr hw
-      · exact fun hi => hni ((ign_iff_dir h hT p).mp hi)
+      · exact fun hi => hni ((ign_iff_dir h hT hp).mp hi)
 
 /-- **C01 (whole analysis; trailing separators).** -/
 theorem c01_analyze_exact_dir {cfg : Config} (h : WFAD cfg) (cs : List Path) {k : Nat} (hk : 0 < k) (t : Path)
-    (hp : ∀ p ∈ cs, ∀ T ∈ cfg, T.path.getLast? = some sep → p ≠ dirOf T.path) :
+    (hp : ∀ p ∈ cs, ChangeOk cfg p) :
     t ∈ (analyze cfg cs k).targets ↔ ∃ p ∈ cs, ∃ T, T.path = t ∧ AffectedD true cfg p T := by
   rw [mem_analyze_targets hk]
   constructor
@@ -203,34 +203,50 @@ theorem c01_analyze_exact_dir {cfg : Config} (h : WFAD cfg) (cs : List Path) {k 
   · rintro ⟨p, hpc, hT⟩
     exact ⟨p, hpc, (c01_change_exact_dir h p t (hp p hpc)).mpr hT⟩
 
+theorem ignDB_iff (T : Target) (p : Path) : ignDB T p = true ↔ IgnD T p := by
+  simp [ignDB, IgnD, List.any_eq_true, withinB_iff]
+
+theorem useCountsDB_iff (cfg : Config) (p u : Path) : useCountsDB cfg p u = true ↔ UseCountsD cfg p u := by
+  simp only [useCountsDB, UseCountsD, Bool.not_eq_true', List.any_eq_false, Bool.and_eq_true, beq_iff_eq,
+    not_and, Bool.not_eq_true, not_exists]
+  constructor
+  · intro h V hV hp hi
+    have := h V hV hp
+    rw [← ignDB_iff] at hi
+    rw [hi] at this; exact Bool.noConfusion this
+  · intro h V hV hp
+    cases hb : ignDB V p with
+    | false => rfl
+    | true => exact absurd ((ignDB_iff V p).mp hb) (h V hV hp)
+
 theorem affectedDB_iff (strict : Bool) {cfg : Config} {p : Path} {T : Target} (hT : T ∈ cfg) :
     affectedDB strict cfg p T = true ↔ AffectedD strict cfg p T := by
   simp only [affectedDB, AffectedD, Bool.and_eq_true, Bool.not_eq_true', Bool.or_eq_true,
     List.any_eq_true, withinB_iff, hT, true_and]
   constructor
   · rintro ⟨hni, hd | ⟨N, hN, ⟨hw, hNi⟩, m, hm, hwm, hs⟩⟩
-    · exact ⟨fun hi => by rw [(ignB_iff T p).mpr hi] at hni; exact Bool.noConfusion hni, Or.inl hd⟩
-    · refine ⟨fun hi => by rw [(ignB_iff T p).mpr hi] at hni; exact Bool.noConfusion hni,
-        Or.inr ⟨N, hN, hw, fun hi => by rw [(ignB_iff N p).mpr hi] at hNi; exact Bool.noConfusion hNi,
+    · exact ⟨fun hi => by rw [(ignDB_iff T p).mpr hi] at hni; exact Bool.noConfusion hni, Or.inl hd⟩
+    · refine ⟨fun hi => by rw [(ignDB_iff T p).mpr hi] at hni; exact Bool.noConfusion hni,
+        Or.inr ⟨N, hN, hw, fun hi => by rw [(ignDB_iff N p).mpr hi] at hNi; exact Bool.noConfusion hNi,
           m, hm, hwm, ?_⟩⟩
       intro hst
       subst hst
-      simpa [useCountsB_iff] using hs
+      simpa [useCountsDB_iff] using hs
   · rintro ⟨hni, hd | ⟨N, hN, hw, hNi, m, hm, hwm, hs⟩⟩
     · refine ⟨?_, Or.inl hd⟩
-      cases hb : ignB T p with
+      cases hb : ignDB T p with
       | false => rfl
-      | true => exact absurd ((ignB_iff T p).mp hb) hni
+      | true => exact absurd ((ignDB_iff T p).mp hb) hni
     · refine ⟨?_, Or.inr ⟨N, hN, ⟨hw, ?_⟩, m, hm, hwm, ?_⟩⟩
-      · cases hb : ignB T p with
+      · cases hb : ignDB T p with
         | false => rfl
-        | true => exact absurd ((ignB_iff T p).mp hb) hni
-      · cases hb : ignB N p with
+        | true => exact absurd ((ignDB_iff T p).mp hb) hni
+      · cases hb : ignDB N p with
         | false => rfl
-        | true => exact absurd ((ignB_iff N p).mp hb) hNi
+        | true => exact absurd ((ignDB_iff N p).mp hb) hNi
       · cases strict with
         | false => simp
-        | true => simp [(useCountsB_iff cfg p m).mpr (hs rfl)]
+        | true => simp [(useCountsDB_iff cfg p m).mpr (hs rfl)]
 
 /-- the driver applies the oracle exactly on the domain of the theorem -/
 theorem wfAllDB_iff (cfg : Config) : wfAllDB cfg = true ↔ WFAD cfg := by
@@ -241,13 +257,22 @@ theorem wfAllDB_iff (cfg : Config) : wfAllDB cfg = true ↔ WFAD cfg := by
   · intro h
     exact ⟨h.toWFD, fun t ht => ⟨h.normalU t ht, h.normalI t ht⟩⟩
 
-theorem changeOkB_spec {cfg : Config} {p : Path} (h : changeOkB cfg p = true) :
-    ∀ T ∈ cfg, T.path.getLast? = some sep → p ≠ dirOf T.path := by
-  intro T hT hs heq
-  simp only [changeOkB, Bool.and_eq_true, List.all_eq_true, Bool.not_eq_true', Bool.and_eq_false_iff] at h
-  rcases h.2 T hT with h1 | h1
-  · rw [hs] at h1; simp at h1
-  · rw [heq] at h1; simp at h1
+theorem changeOkB_spec {cfg : Config} {p : Path} (h : changeOkB cfg p = true) : ChangeOk cfg p := by
+  simp only [changeOkB, slashed, Bool.and_eq_true, List.all_eq_true, Bool.not_eq_true', Bool.and_eq_false_iff,
+    beq_eq_false_iff_ne, ne_eq, beq_iff_eq] at h
+  refine ⟨?_, ?_, ?_⟩
+  · intro T hT hs heq
+    rcases (h.2 T hT).1.1 with h1 | h1
+    · exact h1 hs
+    · exact h1 heq
+  · intro T hT u hu hs heq
+    rcases (h.2 T hT).1.2 u hu with h1 | h1
+    · exact h1 hs
+    · exact h1 heq
+  · intro T hT g hg hs heq
+    rcases (h.2 T hT).2 g hg with h1 | h1
+    · exact h1 hs
+    · exact h1 heq
 
 /-- `core/` declared with a trailing separator, `app` uses `core/api`, `core/sub` nested:
 the change `core/api/x` affects `core/` (its directory) and `app` (its uses entry), not `core/sub` -/
@@ -257,6 +282,10 @@ def exCfg01Slash : Config :=
     { path := [99,111,114,101,47,115,117,98], uses := [], ignores := [] } ]
 
 example : wfAllDB exCfg01Slash = true ∧ changeOkB exCfg01Slash [99,111,114,101,47,97,112,105,47,120] = true := by decide
+/-- a `uses` entry written `sh/`: a change `sh/f` affects the declaring target -/
+example : (analyze [{ path := [97], uses := [[115,104,47]], ignores := [] }, { path := [98], uses := [], ignores := [] }]
+    [[115,104,47,102]] 50).targets = [[97]] ∧
+    wfAllDB [{ path := [97], uses := [[115,104,47]], ignores := [] }, { path := [98], uses := [], ignores := [] }] = true := by decide
 example : (analyze exCfg01Slash [[99,111,114,101,47,97,112,105,47,120]] 50).targets = [[97,112,112],[99,111,114,101,47]] := by decide
 
 /-! ## Non-vacuity -/
